@@ -159,26 +159,121 @@ def _shape_of_binding(fn: ast.AST, name: str, all_locals: List[str]) -> Optional
 _FLIP = {ast.Lt: ast.Gt, ast.Gt: ast.Lt, ast.LtE: ast.GtE, ast.GtE: ast.LtE, ast.Eq: ast.Eq, ast.NotEq: ast.NotEq}
 
 
+_AUG_OPS = (ast.Add, ast.Sub, ast.Mult)
+
+
+def _kind(n: ast.AST) -> Optional[str]:
+    """Which benign re-spelling a node admits: operand order (cmp / mul), branch order of a plain if/else, 'x op= e' vs 'x = x op e'."""
+    if isinstance(n, ast.Compare):
+        return "cmp" if len(n.ops) == 1 and type(n.ops[0]) in _FLIP else None
+    if isinstance(n, ast.BinOp):
+        return "mul" if isinstance(n.op, ast.Mult) else None
+    if isinstance(n, ast.If):
+        return "if" if n.orelse and not (len(n.orelse) == 1 and isinstance(n.orelse[0], ast.If)) else None
+    if isinstance(n, ast.AugAssign):
+        return "aug" if isinstance(n.target, ast.Name) and isinstance(n.op, _AUG_OPS) else None
+    if isinstance(n, ast.Assign):
+        if len(n.targets) == 1 and isinstance(n.targets[0], ast.Name) and isinstance(n.value, ast.BinOp) and isinstance(n.value.op, _AUG_OPS) and isinstance(n.value.left, ast.Name) and n.value.left.id == n.targets[0].id:
+            return "aug"
+    return None
+
+
 def _flippable(n: ast.AST) -> bool:
-    if isinstance(n, ast.Compare):
-        return len(n.ops) == 1 and type(n.ops[0]) in _FLIP
-    return isinstance(n, ast.BinOp) and isinstance(n.op, ast.Mult)
+    return _kind(n) is not None
 
 
-def _flip_in_place(n: ast.AST) -> None:
-    if isinstance(n, ast.Compare):
+def _replace_stmt(fn: ast.AST, old: ast.AST, new: ast.AST) -> bool:
+    for holder in ast.walk(fn):
+        for field in ("body", "orelse", "finalbody"):
+            lst = getattr(holder, field, None)
+            if isinstance(lst, list):
+                for k, st in enumerate(lst):
+                    if st is old:
+                        lst[k] = new
+                        new._parent = holder  # type: ignore[attr-defined]
+                        for ch in ast.iter_child_nodes(new):
+                            ch._parent = new  # type: ignore[attr-defined]
+                        return True
+    return False
+
+
+def _flip_in_place(n: ast.AST, fn: Optional[ast.AST] = None) -> Optional[ast.AST]:
+    """Re-spell the node the other way round (behaviour unchanged); returns the node that now stands in its place."""
+    k = _kind(n)
+    if k == "cmp":
         n.left, n.comparators[0] = n.comparators[0], n.left
         n.ops = [_FLIP[type(n.ops[0])]()]
-    elif isinstance(n, ast.BinOp):
+    elif k == "mul":
         n.left, n.right = n.right, n.left
+    elif k == "if":
+        if isinstance(n.test, ast.UnaryOp) and isinstance(n.test.op, ast.Not):
+            n.test = n.test.operand
+        else:
+            neg = ast.copy_location(ast.UnaryOp(op=ast.Not(), operand=n.test), n.test)
+            neg._parent = n  # type: ignore[attr-defined]
+            n.test._parent = neg  # type: ignore[attr-defined]
+            n.test = neg
+        n.body, n.orelse = n.orelse, n.body
+    elif k == "aug":
+        if isinstance(n, ast.AugAssign):
+            left = ast.copy_location(ast.Name(id=n.target.id, ctx=ast.Load()), n.target)
+            val = ast.copy_location(ast.BinOp(left=left, op=n.op, right=n.value), n.value)
+            new: ast.AST = ast.copy_location(ast.Assign(targets=[n.target], value=val), n)
+            new.lineno, new.col_offset, new.end_lineno, new.end_col_offset = n.lineno, n.col_offset, n.end_lineno, n.end_col_offset  # type: ignore[attr-defined]
+            left._parent, n.value._parent = val, val  # type: ignore[attr-defined]
+        else:
+            new = ast.copy_location(ast.AugAssign(target=n.targets[0], op=n.value.op, value=n.value.right), n)
+        if hasattr(n, "_fid"):
+            new._fid = n._fid  # type: ignore[attr-defined]
+        if fn is not None:
+            _replace_stmt(fn, n, new)
+        return new
+    return n
+
+
+class _Orient(ast.NodeTransformer):
+    """Bottom-up canonical spelling on a copy: sorted operands, un-negated if-tests, augmented assignments expanded."""
+
+    def __init__(self) -> None:
+        self.bits: Dict[int, int] = {}
+
+    @staticmethod
+    def key(x: ast.AST) -> str:
+        return ast.dump(x, annotate_fields=False, include_attributes=False)
+
+    def generic_visit(self, node: ast.AST) -> ast.AST:
+        super().generic_visit(node)
+        fid = getattr(node, "_fid", None)
+        k = _kind(node)
+        if fid is None or k is None:
+            return node
+        if k in ("cmp", "mul"):
+            a, b = (node.left, node.comparators[0]) if k == "cmp" else (node.left, node.right)
+            flip = self.key(a) > self.key(b)
+        elif k == "if":
+            depth = 0
+            t = node.test
+            while isinstance(t, ast.UnaryOp) and isinstance(t.op, ast.Not):
+                depth, t = depth + 1, t.operand
+            if depth >= 2:  # 'not not c': drop the pairs first (the copy only)
+                node.test = t if depth % 2 == 0 else ast.UnaryOp(op=ast.Not(), operand=t)
+            flip = depth % 2 == 1
+        else:
+            flip = isinstance(node, ast.AugAssign)
+        self.bits[fid] = int(flip)
+        if flip:
+            out = _flip_in_place(node)
+            return out if out is not None else node
+        return node
 
 
 def oriented(fn: ast.AST, names: List[str]) -> Tuple[str, List[int], List[ast.AST]]:
-    """(hash of the canonical form, flip bits in canonical order, flippable source nodes in the same order).
+    """(hash of the canonical form, flip bits in canonical order, re-spellable source nodes in the same order).
 
-    Canonical form: locals replaced by their first-binding index, and, bottom-up, the operands of every single-operator comparison and
-    every multiplication sorted by the dump of their (already canonical) subtrees.  Bit i says whether the i-th flippable node (in the
-    breadth-first order of the canonical tree) is written the other way round in the source."""
+    Canonical form: locals replaced by their first-binding index and, bottom-up, operands of single-operator comparisons and of
+    multiplications sorted by the dump of their (already canonical) subtrees, plain if/else written with an un-negated test,
+    'x op= e' written as 'x = x op e'.  Bit i says whether the i-th such node (breadth-first order of the canonical tree) is
+    spelled the other way in the source."""
     import copy
 
     originals = [n for n in ast.walk(fn) if _flippable(n)]
@@ -188,31 +283,14 @@ def oriented(fn: ast.AST, names: List[str]) -> Tuple[str, List[int], List[ast.AS
     for n in originals:
         del n._fid  # type: ignore[attr-defined]
     dup = _Canon({n: f"L{i}" for i, n in enumerate(names)}).visit(dup)
-    flipped: Dict[int, int] = {}
-
-    def key(x: ast.AST) -> str:
-        return ast.dump(x, annotate_fields=False, include_attributes=False)
-
-    def canon(node: ast.AST) -> None:
-        for child in ast.iter_child_nodes(node):
-            canon(child)
-        fid = getattr(node, "_fid", None)
-        if fid is None or not _flippable(node):
-            return
-        a, b = (node.left, node.comparators[0]) if isinstance(node, ast.Compare) else (node.left, node.right)
-        if key(a) > key(b):
-            _flip_in_place(node)
-            flipped[fid] = 1
-        else:
-            flipped[fid] = 0
-
-    canon(dup)
-    order = [n._fid for n in ast.walk(dup) if getattr(n, "_fid", None) is not None and _flippable(n)]  # type: ignore[attr-defined]
+    orient = _Orient()
+    dup = orient.visit(dup)
+    order = [n._fid for n in ast.walk(dup) if getattr(n, "_fid", None) is not None]  # type: ignore[attr-defined]
     for n in ast.walk(dup):
         if hasattr(n, "_fid"):
             del n._fid  # type: ignore[attr-defined]
-    h = hashlib.sha256(key(dup).encode()).hexdigest()[:20]
-    return h, [flipped[i] for i in order], [originals[i] for i in order]
+    h = hashlib.sha256(_Orient.key(dup).encode()).hexdigest()[:20]
+    return h, [orient.bits.get(i, 0) for i in order], [originals[i] for i in order]
 
 
 def _raw_hash(fn: ast.AST) -> str:
@@ -297,7 +375,7 @@ def normalise(module: str, tree: ast.AST) -> int:
                 # equal up to local names and operand order: restore the reference's operand order, then its names
                 for b, rb, node in zip(bits, ref_bits, nodes):
                     if b != rb:
-                        _flip_in_place(node)
+                        _flip_in_place(node, fn)
                         n += 1
                 mp = {c: r for c, r in zip(cur_names, ref_names) if c != r}
                 used = {x.id for x in ast.walk(fn) if isinstance(x, ast.Name)} | _params(fn)
